@@ -229,6 +229,12 @@ def simplify_math_iterators(source: str) -> str:
                 continue
             if node.func.id != "sum":
                 continue
+            if not 1 <= len(arg.args) <= 3:
+                continue
+            *_, step = _get_range_start_end(arg)
+            if not core.match_template(step, ast.Constant(value=1)):
+                # _sum_range only knows the closed form for a step of 1
+                continue
             yield node, _sum_range(arg)
 
         elif core.match_template(arg, basic_collection_template):
